@@ -7,6 +7,7 @@ import (
 	"crypto/tls"
 	"io"
 	"net"
+	"strings"
 	"time"
 
 	"github.com/fatedier/frp/client/proxy"
@@ -333,5 +334,33 @@ func verif_client_NewControl(ctx context.Context, sessionCtx *SessionContext) {
 		} else {
 			verif.Ensures(verif.Same(verif.NthArg[any](evDisp, 0, 0), any(conn)), "dispatcher_speaks_on_the_session_connection")
 		}
+	}
+}
+
+// Open, quic transport: quic always runs over TLS; the configuration is built
+// for the configured server name (the server address when none is configured),
+// from the configured identity material when TLS is enabled, and that
+// configuration - and no other - is what the quic dialler gets.
+//
+//verif:contract (*~/client.defaultConnectorImpl).Open
+//verif:props C05
+func verif_client_Open(c *defaultConnectorImpl) {
+	verif.Requires(c.cfg != nil, "constructed_by_NewConnector")
+	t := c.cfg.Transport
+	isQuic := strings.EqualFold(t.Protocol, "quic")
+	enabled := t.TLS.Enable != nil && *t.TLS.Enable
+	sn := t.TLS.ServerName
+	if sn == "" {
+		sn = c.cfg.ServerAddr
+	}
+	verif.ResetEvents()
+	err := c.Open()
+	const evCfg = "transport.NewClientTLSConfig"
+	if isQuic && err == nil {
+		verif.Ensures(verif.Called(evCfg) && verif.RetErr(evCfg, 1) == nil && verif.CalledWith(evCfg, 3, sn), "quic_tls_configuration_for_the_configured_server_name")
+		if enabled {
+			verif.Ensures(verif.CalledWith(evCfg, 0, t.TLS.CertFile) && verif.CalledWith(evCfg, 1, t.TLS.KeyFile) && verif.CalledWith(evCfg, 2, t.TLS.TrustedCaFile), "built_from_the_configured_identity_material")
+		}
+		verif.Ensures(verif.CalledWith("quic.DialAddr", 2, verif.Ret[*tls.Config](evCfg, 0)), "quic_dialled_with_that_configuration")
 	}
 }
